@@ -243,6 +243,8 @@ def _dict_to_iso8583(message, bit_config, encoding=DEFAULT_ENCODING, hex_bitmap=
     LOGGER.debug(de_pds_fields)
 
     for de_field_value in _pds_to_de(message):
+        if not de_pds_fields:
+            raise Iso8583DataError('PDS fields do not fit in the data elements configured to carry PDS data')
         de_field_key = de_pds_fields.pop()
         LOGGER.debug(f'de{de_field_key}={de_field_value}')
         message[f'DE{de_field_key}'] = de_field_value
